@@ -81,10 +81,11 @@ CHECKS["C05"] = ("HttpProtocol.tla, TraceHttpProtocol.tla",
     "Trusted: TLC, harness/protocol.py (turns raw messages into typed event records), servers.py.",
     "DESIGN.md 5 C05")
 
-CHECKS["C06"] = ("SseWsgi.tla, StreamWsgi.tla, SseAsgi.tla, TraceSseAsgi.tla, StreamAsgi.tla, TraceStreamAsgi.tla",
+CHECKS["C06"] = ("SseWsgi.tla, StreamWsgi.tla, SseAsgi.tla, TraceSseAsgi.tla, StreamAsgiTask.tla, TraceStreamAsgiTask.tla, StreamAsgi.tla, TraceStreamAsgi.tla",
     "WSGI: TLC exhaustive model check of relay thread / consumer generator / server over a one-slot queue (NoStuck, ClosedOnce, "
     "NoLeak, Delivered, RaisedIsReported; liveness Terminates under weak fairness); every transition forced onto the real "
-    "threads by a cooperative scheduler, each schedule then completed fairly and judged; witness Fixed=FALSE must deadlock. "
+    "threads by a cooperative scheduler, each schedule then completed fairly and judged; witness Fixed=FALSE must deadlock; pool exhaustion: "
+    "liveness CloseReturns without fairness for the relay's start (witness CancelFirst=FALSE), schedules completed with the relay never granted. "
     "ASGI: TLC exhaustive model check of the three asyncio tasks of an event stream (main / relay / disconnect watcher, one-slot queue, "
     "cancellation delivery) at task level - SseAsgi.tla: invariants plus liveness Terminates and ReturnsAfterDisconnect under fairness, "
     "witness Drain=FALSE must leak the relay task; timing scenarios run under a virtual-time loop with the library's asyncio name proxied, "
@@ -95,7 +96,7 @@ CHECKS["C06"] = ("SseWsgi.tla, StreamWsgi.tla, SseAsgi.tla, TraceSseAsgi.tla, St
     "send-cost combinations in the bounds, with the return deadline, single cleanup, no pending task and in-order delivery "
     "checked per event.",
     "Trusted: TLC, harness/sched.py (threads move only at its control points), harness/vloop.py, asyncio's FIFO ready queue. "
-    "The task-level ASGI model covers event streams; the plain ASGI StreamResponse is covered by the property automaton only.",
+    "Task-level ASGI models: SseAsgi.tla (event streams, three tasks) and StreamAsgiTask.tla (plain streams, two tasks).",
     "DESIGN.md 5 C06")
 
 CHECKS["C10"] = ("RequestBody.tla",
